@@ -258,7 +258,7 @@ def cursor_discipline_rule(F, G, rep, R):
             ok = False
             if p is not None and p.get("k") == "MethodCall" and p["recv"] is e:
                 d = declared(p) or ""
-                ok = d.startswith("byteorder::ReadBytesExt::read_") or d == "std::io::Read::read_exact" or (fn == "io::slippi::de::if_more" and p["method"] == "is_empty")
+                ok = d.startswith("byteorder::ReadBytesExt::read_") or d == "std::io::Read::read_exact" or (fn == "io::slippi::de::if_more" and p["method"] in ("is_empty", "len") and not p.get("args"))
                 if not ok and p["method"] == "to_vec" and not p.get("args"):
                     # the raw block kept for round-tripping: `let bytes = r.to_vec();` used only as the `bytes` field
                     q = par.get(id(p))
@@ -407,6 +407,51 @@ def trailing_rule(F, rep):
     rep.ob("trailing.present", hit is not None, "io::slippi::de::read", "trailing.branch", "read() has no `bytes_read < raw_len` branch consuming what follows the first Game End")
 
 
+def duplicate_end_test_rule(F, rep):
+    """what follows the first Game End is classified as a *duplicated Game End* (which sets the double_game_end quirk and makes
+    the writer emit a second Game End) only when its first byte is the Game End event code: an unknown event of the same size
+    and content sitting there is unknown trailing content, not a second Game End"""
+    b = F.body("io::slippi::de::read")
+    root = b["tir"]["value"]
+    env = tir.LetEnv(root)
+    par = {}
+    for x in tir.walk(root):
+        for c in tir.children(x):
+            if isinstance(c, dict):
+                par[id(c)] = x
+    setters = [x for x in tir.walk(root) if x.get("k") == "Assign" and "double_game_end" in tir.pretty(x["l"])]
+    setters += [x for x in tir.walk(root) if x.get("k") == "Struct" and (x.get("path") or "").endswith("Quirks") and any(f["name"] == "double_game_end" and tir.pretty(f["e"]) != "false" for f in x["fields"])
+                and not any(id(x) == id(y) for s_ in setters for y in tir.walk(s_))]
+    n = 0
+    for st in setters:
+        conds = []
+        child, a = st, par.get(id(st))
+        while a is not None:
+            if a.get("k") == "If" and (a.get("then") is child or any(y is child for y in tir.walk(a["then"]))) and not (a.get("else") is not None and any(y is child for y in tir.walk(a["else"]))):
+                conds.append(a["cond"])
+            child, a = a, par.get(id(a))
+        atoms = []
+        work = [env.resolve(strip(c)) for c in conds]
+        while work:
+            c = strip(work.pop())
+            if c.get("k") == "Binary" and c.get("op") == "And":
+                work += [env.resolve(strip(c["l"])), env.resolve(strip(c["r"]))]
+            else:
+                atoms.append(c)
+        ok = False
+        for c in atoms:
+            if c.get("k") == "Binary" and c.get("op") == "Eq":
+                for x, y in ((strip(c["l"]), strip(c["r"])), (strip(c["r"]), strip(c["l"]))):
+                    yy = y
+                    while yy.get("k") == "Cast":
+                        yy = strip(yy["e"])
+                    if x.get("k") == "Index" and tir.lit_int(x["index"]) == 0 and (yy.get("path") or "").endswith("Event::GameEnd"):
+                        ok = True
+        n += 1
+        rep.ob("trailing.duplicate-end-code", ok, "io::slippi::de::read", "double_game_end", "the double_game_end quirk is set without testing that the trailing content starts with the Game End event code (conditions: %s)" % [tir.pretty(c)[:60] for c in atoms], tir.sp(st))
+    rep.floor("double_game_end setters in read()", n, 1)
+
+
 def run(F, rep, tier):
     from props import C10
     C10.same_version_rule(F, rep)
@@ -420,6 +465,7 @@ def run(F, rep, tier):
     monotone_rule(F, G, rep, R)
     size_trigger_rule(F, G, rep, R)
     trailing_rule(F, rep)
+    duplicate_end_test_rule(F, rep)
     # the payload table is read whole, whatever its declared length (up to 84 pairs): what parse_payloads consumes is the
     # declared size (C12's accounting by linear forms; a fixed-capacity buffer falls outside it)
     from props import C12 as _C12
